@@ -93,6 +93,10 @@ def gen_case(rng, i, tier):
         calls.append({"op": "render", "reg": 0, "api": rng.pick(NAMED), "name": "mainp", "data": d})
     for api in UNNAMED:
         calls.append({"op": "render", "reg": 0, "api": api, "src": main, "data": d})
+    # the writer entry points on a writer that accepts only a few bytes per call (legal for io::Write): the same bytes arrive
+    for api in ("render_to_write", "render_with_context_to_write"):
+        calls.append({"op": "render", "reg": 0, "api": api, "name": "main", "data": d, "short": rng.pick([1, 2, 3, 5])})
+    calls.append({"op": "render", "reg": 0, "api": rng.pick(["render_template_to_write", "render_template_with_context_to_write"]), "src": main, "data": d, "short": rng.pick([1, 4])})
     if not cfg["prevent_indent"] and not devfile:
         # Template::compile_with_name has no prevent_indent option: "precompiled with the same options" exists only then
         calls.append({"op": "render", "reg": 0, "api": "render", "name": "pre", "data": d})
